@@ -17,12 +17,12 @@ import os, re, json
 from vlib import core
 
 PID = "C04"
-FAMS = ["mixed", "concat", "dict", "rletab", "rawtail", "longlen", "repeat", "headers", "splitlit", "comp", "bigwin"]
+FAMS = ["mixed", "hufeq", "concat", "dict", "rletab", "rawtail", "longlen", "repeat", "headers", "splitlit", "comp", "bigwin"]
 
 
 def script(rng, tier):
     q = tier == "quick"
-    n = {"mixed": 140 if q else 1500, "concat": 24 if q else 300, "dict": 60 if q else 800, "rletab": 200 if q else 2500, "rawtail": 150 if q else 2000, "longlen": 16 if q else 150, "repeat": 90 if q else 1000, "headers": 80 if q else 600,
+    n = {"mixed": 140 if q else 1500, "concat": 24 if q else 300, "hufeq": 150 if q else 1500, "dict": 60 if q else 800, "rletab": 200 if q else 2500, "rawtail": 150 if q else 2000, "longlen": 16 if q else 150, "repeat": 90 if q else 1000, "headers": 80 if q else 600,
          "splitlit": 40 if q else 400, "comp": 24 if q else 300, "bigwin": 1 if q else 6}
     return ["GEN %s %d %d" % (f, rng.randint(1, 2000000), n[f]) for f in FAMS]
 
